@@ -1073,6 +1073,10 @@ class Walker:
                     for x in (t, h, h.body[0], typ):
                         ast.copy_location(x, ce)
                     return self.s_Try(t, st)
+        if len(n.items) == 1:
+            r_cm = self._with_object_cm(n, st)
+            if r_cm is not None:
+                return r_cm
         cur = [(st, "fall", None)]
         for item in n.items:
             nxt = []
@@ -1100,6 +1104,62 @@ class Walker:
                 s2 = s2.copy()
                 s2.ev("with-exit", self.site(n), k2)
                 outs.append((s2, k2, p2))
+        return outs
+
+    def _with_object_cm(self, n, st):
+        """`with <instance of a repository class with __enter__/__exit__> [as x]: BODY`:
+        __enter__ runs, BODY runs, then __exit__(None, None, None) - or, when BODY raised,
+        __exit__(class, exception, traceback), whose truthy result swallows the exception"""
+        from .calls import apply_repo
+
+        item = n.items[0]
+        outs = []
+        any_obj = False
+        pending = []
+        for s, k, v in self.expr(item.context_expr, st):
+            if k != "val":
+                outs.append((s, k, v))
+                continue
+            if not (isinstance(v, tuple) and len(v) == 3 and v[0] == "obj"):
+                pending.append((s, v))
+                continue
+            m_en = self.prog.find_method(v[1], "__enter__")
+            m_ex = self.prog.find_method(v[1], "__exit__")
+            if m_en is None or m_ex is None or m_en[0] != "repo" or m_ex[0] != "repo":
+                pending.append((s, v))
+                continue
+            any_obj = True
+            for s1, k1, ent in apply_repo(self, item.context_expr, m_en[1], None, (v,), (), s):
+                if k1 != "val":
+                    outs.append((s1, k1, ent))
+                    continue
+                starts = self._assign_target(item.optional_vars, ent, s1.copy(), n) if item.optional_vars is not None else [(s1, "fall", None)]
+                for s2, k2, p2 in starts:
+                    body_outs = [(s2, k2, p2)] if k2 != "fall" else self.block(n.body, s2)
+                    for s3, k3, p3 in body_outs:
+                        if k3 == "raise":
+                            exargs = (v, G("builtin:" + p3.exc) if self._is_builtin_exception(p3.exc) else G("class:" + p3.exc), ("excobj", p3.exc), Fresh("traceback"))
+                            for s4, k4, r4 in apply_repo(self, n, m_ex[1], None, exargs, (), s3):
+                                if k4 != "val":
+                                    outs.append((s4, k4, r4))
+                                    continue
+                                for s5, k5, _p5 in self.truth(r4, s4):
+                                    if k5 == "true":
+                                        s5 = s5.copy()
+                                        s5.ev("caught", self.site(n), p3.exc, ("BaseException",), p3.site(), p3.conds, p3.chain)
+                                        outs.append((s5, "fall", None))
+                                    elif k5 == "false":
+                                        outs.append((s5, "raise", p3))
+                                    else:
+                                        outs.append((s5, k5, _p5))
+                        else:
+                            none3 = (v, C(None), C(None), C(None))
+                            for s4, k4, r4 in apply_repo(self, n, m_ex[1], None, none3, (), s3):
+                                outs.append((s4, k3, p3) if k4 == "val" else (s4, k4, r4))
+        if not any_obj:
+            return None
+        if pending:
+            return None  # mixed shapes: let the generic rule handle the statement
         return outs
 
     # ---- loops
